@@ -5,3 +5,4 @@ import Dawgs.Props.C15
 import Dawgs.Props.C16
 import Dawgs.Props.C16Conc
 import Dawgs.Props.C16Locks
+import Dawgs.Props.C17
